@@ -187,6 +187,10 @@ def check_history(c):
     obj = guard(CI.make, c)
     tag = CI.label(c)
     for i, (d, blk) in enumerate(c["calls"]):
+        if d.startswith("bad-"):
+            # a block of the wrong size is refused (judged by the undefined-sizes facet); here it only disturbs the object
+            attempt(getattr(obj, d[4:]), blk)
+            continue
         if d == "enc":
             got, exp = guard(obj.enc, blk), CI.ref_enc(c, blk)
         else:
@@ -199,7 +203,9 @@ def history_strategy(tier):
     def with_calls(c):
         n = CI.BLOCK[c["cipher"]]
         call = st.tuples(st.sampled_from(["enc", "dec"]), gen.blob(n))
-        return st.lists(call, min_size=2, max_size=6).map(lambda l: dict(c, calls=tuple(l)))
+        bad = st.tuples(st.sampled_from(["bad-enc", "bad-dec"]), gen.blob_of(st.sampled_from([n - 1, n + 1, 0, n // 2, 2 * n])))
+        return st.lists(gen.pick((5, call), (1, bad)), min_size=2, max_size=6).map(
+            lambda l: dict(c, calls=tuple(l) if not l[-1][0].startswith("bad-") else tuple(l) + (("enc", bytes(n)), ("dec", bytes(n)))))
     return CI.config_strategy().flatmap(with_calls)
 
 
@@ -217,8 +223,10 @@ FACETS = [
           rule="random configuration (keys random / weak / zero-one words), random-constant-single-bit blocks, enc, dec or both"),
     Facet("call-histories", check_history, strategy=history_strategy, budget={"quick": 1600, "thorough": 30000},
           shards={"quick": 16, "thorough": 32}, nontrivial=lambda c: len(c["calls"]) >= 2,
-          classify=lambda c: (CI.label(c), "".join(d[0] for d, _ in c["calls"])[:3]),
-          rule="2..6 enc/dec calls with different blocks on ONE object, each compared with the reference (cached key schedules, stale state)"),
+          classify=lambda c: (CI.label(c), "".join(d[0] for d, _ in c["calls"])[:3],
+                              "has refused call" if any(d.startswith("bad-") for d, _ in c["calls"]) else "no refused call"),
+          rule="2..6 enc/dec calls with different blocks on ONE object, each compared with the reference (cached key schedules, stale state); "
+               "one call in six passes a block of the wrong size (refused) before the following calls are judged"),
     Facet("undefined-sizes", check_reject, strategy=reject_strategy, budget={"quick": 1200, "thorough": 20000},
           nontrivial=lambda c: True, classify=classify_reject,
           rule="AES key not in {16,24,32}, DES key != 8, TDEA strings/arguments of other lengths, Serpent key > 256 bits, Threefish key/tweak "
